@@ -64,7 +64,7 @@ func c13(c *wk.Ctx) {
 		}
 	}()
 	n := 0
-	c.Cases("plan", c.Pick(600, 100000), func(i int, rng *rand.Rand) {
+	c.Cases("plan", c.Pick(1800, 100000), func(i int, rng *rand.Rand) {
 		if w == nil || n%50 == 0 {
 			if w != nil {
 				w.close()
